@@ -344,6 +344,11 @@ func (x *Explorer) load(addr *Term, typ types.Type) *Term {
 			return sv
 		}
 	}
+	if at, ok := typ.Underlying().(*types.Array); ok && at.Len() <= 64 {
+		if av := x.loadArray(addr, at, typ); av != nil {
+			return av
+		}
+	}
 	// fresh allocation on this path: zero content
 	if root := addrRoot(addr); !havoced && root != nil && root.Kind == KAlloc && x.allocN[root.Ref.(*ssa.Alloc)] == root.N && root.N > 0 {
 		if !x.allocTouched(root) {
@@ -413,4 +418,26 @@ func (x *Explorer) OpaqueOf(v ssa.Value) *Term {
 // ParamTerm is the term of a parameter of the explored root function.
 func (x *Explorer) ParamTerm(p *ssa.Parameter) *Term {
 	return x.T.mk(Term{Kind: KParam, Ref: p, Type: p.Type()})
+}
+
+// loadArray rebuilds a small array value from the cells of its elements, if any is known.
+func (x *Explorer) loadArray(addr *Term, at *types.Array, typ types.Type) *Term {
+	any := false
+	n := int(at.Len())
+	et := types.NewPointer(at.Elem())
+	for i := 0; i < n; i++ {
+		ia := x.T.mk(Term{Kind: KIndexAddr, Args: []*Term{addr, x.T.Int(int64(i))}, Type: et})
+		if _, ok := x.mem[ia.ID]; ok {
+			any = true
+		}
+	}
+	if !any {
+		return nil
+	}
+	var args []*Term
+	for i := 0; i < n; i++ {
+		ia := x.T.mk(Term{Kind: KIndexAddr, Args: []*Term{addr, x.T.Int(int64(i))}, Type: et})
+		args = append(args, x.load(ia, at.Elem()))
+	}
+	return x.T.mk(Term{Kind: KSliceLit, Op: token.LBRACK, Args: args, Type: typ})
 }
